@@ -68,6 +68,17 @@ CLAIMS = {
         "C01's table extraction; C15 purity",
         "DESIGN.md section 4 C12",
     ),
+    "C13": (
+        "Decides per method and per guard (for all inputs, not per call history) that undefined or incomplete specifications are rejected "
+        "before a verdict can exist: no rewrite preceding a validator makes its guard unsatisfiable; validators, None-guards, entry-point "
+        "option guards and relative_to dominate evaluation / dereferences / state writes; AssertionError is raised only at the two verdict "
+        "sites and src/ has no assert; no broad or lookup-error handler around graph accesses; contradictory verbs raise exactly for "
+        "should_not + another verb; every subject/object/layer name reaches a raising lookup on every path; the required-configuration "
+        "formula is exactly 'subject, verb, import type or object missing'. Does NOT explore call sequences.",
+        "CFG dominance / must-pass-through + guard truth tables + who-may-raise and handler inventory (effect analysis)",
+        "networkx raises for missing nodes; Path.relative_to raises; engine CFG and guard formulas",
+        "DESIGN.md section 4 C13",
+    ),
 }
 
 NOT_BUILT_REASON = "static check not built yet in this session (planned rules: DESIGN.md section 4); no claim is made"
